@@ -145,6 +145,7 @@ func ProfileFor(prop string) *Profile {
 		p.Reloads = true
 		p.W = scale(p.W, map[string]int{OpReload: 40, OpCleanup: 20, OpAddApp: 60})
 		p.Cfg.Limits = 500
+		p.Cfg.MixedCase = 300
 	}
 	return p
 }
